@@ -11,6 +11,7 @@ Import ListNotations.
 Inductive cond :=
 | CLenLt (k : nat)        (* len(args) < k *)
 | CLenGe (k : nat)        (* len(args) >= k *)
+| CLenEq (k : nat)        (* len(args) == k *)
 | CErrNil (v : nat)       (* err_v == nil, err_v returned by a guarding helper *)
 | CErrNotNil (v : nat)    (* err_v != nil *)
 | COther.                 (* any other condition *)
@@ -20,7 +21,8 @@ Inductive stm :=
 | SUseFrom (k : nat)                     (* args[k:] *)
 | SHelper (v g : nat)                    (* ..., err_v := helper(args, ...): err_v is non-nil whenever len(args) < g *)
 | SReturn
-| SIf (c : cond) (t e : list stm).       (* loops are translated as  SIf COther body []  *)
+| SIf (c : cond) (t e : list stm)
+| SLoop (body : list stm).               (* for / range / a function literal that runs later: any number of runs *)
 
 (* ---- concrete semantics -------------------------------------------------------------- *)
 (* n = number of arguments received; errs: err_v = nil?; oracle: outcomes of unknown tests *)
@@ -45,6 +47,7 @@ Fixpoint exec_stm (s : stm) (n : nat) (errs : list (nat * bool)) (o : list bool)
       let '(b, o') := match c with
                       | CLenLt k => (n <? k, o)
                       | CLenGe k => (k <=? n, o)
+                      | CLenEq k => (n =? k, o)
                       | CErrNil v => (lookup_b v errs, o)
                       | CErrNotNil v => (negb (lookup_b v errs), o)
                       | COther => next o
@@ -57,6 +60,29 @@ Fixpoint exec_stm (s : stm) (n : nat) (errs : list (nat * bool)) (o : list bool)
                      | other => other
                      end
          end) (if b then t else e) errs o'
+  | SLoop body =>
+      (* each run of the body is chosen by the oracle; a return / break / continue inside the body
+         (all translated to SReturn) either returns from the function or goes on with the loop *)
+      (fix iter (k : nat) (errs : list (nat * bool)) (o : list bool) : out :=
+         match k with
+         | 0 => Fell errs o
+         | S k' =>
+             let '(b, o1) := next o in
+             if b then
+               match (fix exec_list (l : list stm) (errs : list (nat * bool)) (o : list bool) : out :=
+                        match l with
+                        | [] => Fell errs o
+                        | x :: r => match exec_stm x n errs o with
+                                    | Fell errs' o' => exec_list r errs' o'
+                                    | other => other
+                                    end
+                        end) body errs o1 with
+               | Panic => Panic
+               | Returned => let '(b2, o2) := next o1 in if b2 then Returned else iter k' errs o2
+               | Fell errs' o' => iter k' errs' o'
+               end
+             else Fell errs o1
+         end) (length o) errs o
   end.
 
 Fixpoint exec (l : list stm) (n : nat) (errs : list (nat * bool)) (o : list bool) : out :=
@@ -93,6 +119,7 @@ Fixpoint safe_stm (s : stm) (lo : nat) (hv : list (nat * nat)) : ares :=
       let '(lt, le) := match c with
                        | CLenLt k => (lo, Nat.max lo k)
                        | CLenGe k => (Nat.max lo k, lo)
+                       | CLenEq k => (Nat.max lo k, if lo =? k then S lo else lo)
                        | CErrNil v => (Nat.max lo (lookup_g v hv), lo)
                        | CErrNotNil v => (lo, Nat.max lo (lookup_g v hv))
                        | COther => (lo, lo)
@@ -111,6 +138,20 @@ Fixpoint safe_stm (s : stm) (lo : nat) (hv : list (nat * nat)) : ares :=
       | Some rt, Some re => Some (join rt re hv)
       | _, _ => None
       end
+  | SLoop body =>
+      (* every run starts from what holds whenever it runs: the bound lo, nothing about errors *)
+      match (fix safe_list (l : list stm) (lo : nat) (hv : list (nat * nat)) : ares :=
+               match l with
+               | [] => Some (Some (lo, hv))
+               | x :: r => match safe_stm x lo hv with
+                           | None => None
+                           | Some None => Some None
+                           | Some (Some (lo', hv')) => safe_list r lo' hv'
+                           end
+               end) body lo [] with
+      | Some _ => Some (Some (lo, []))
+      | None => None
+      end
   end.
 
 Fixpoint safe_list (l : list stm) (lo : nat) (hv : list (nat * nat)) : ares :=
@@ -123,5 +164,16 @@ Fixpoint safe_list (l : list stm) (lo : nat) (hv : list (nat * nat)) : ares :=
               end
   end.
 
-Definition safe (body : list stm) : bool :=
-  match safe_list body 0 [] with Some _ => true | None => false end.
+(* safe when at least lo arguments are received *)
+Definition safe_from (lo : nat) (body : list stm) : bool :=
+  match safe_list body lo [] with Some _ => true | None => false end.
+
+Definition safe (body : list stm) : bool := safe_from 0 body.
+
+(* the least number of arguments (up to a bound) from which the body is safe *)
+Fixpoint need_upto (k : nat) (lo : nat) (body : list stm) : option nat :=
+  match k with
+  | 0 => None
+  | S k' => if safe_from lo body then Some lo else need_upto k' (S lo) body
+  end.
+Definition need (body : list stm) : option nat := need_upto 8 0 body.
